@@ -122,6 +122,8 @@ def catalogue():
         # an integer that still fits a float, but not after scaling by the sexagesimal unit count
         ("number-306-digit-integer-to-sexagesimal-format", new_vec("Number", "DEV", "NUMBER_V", [one_child("Number", "N2", "1" + "0" * 305)]), {("NUMBER_V", "N2")}),
         ("number-308-digit-integer-to-printf-format", new_vec("Number", "DEV", "NUMBER_V", [one_child("Number", "N0", "-" + "9" * 308)]), {("NUMBER_V", "N0")}),
+        ("number-with-a-run-of-blanks", new_vec("Number", "DEV", "NUMBER_V", [one_child("Number", "N0", "1" + " " * 19 + "x")]), set()),
+        ("number-with-a-run-of-separators", new_vec("Number", "DEV", "NUMBER_V", [one_child("Number", "N0", "1" + " :" * 10 + "!")]), set()),
         ("number-400-digit-fraction", new_vec("Number", "DEV", "NUMBER_V", [one_child("Number", "N0", "0." + "0" * 400 + "1")]), {("NUMBER_V", "N0")}),
         ("number-tiny-to-sexagesimal-format", new_vec("Number", "DEV", "NUMBER_V", [one_child("Number", "N2", "1e-320")]), {("NUMBER_V", "N2")}),
         ("number-huge-sexagesimal", new_vec("Number", "DEV", "NUMBER_V", [one_child("Number", "N0", "1e400:30")]), set()),
@@ -154,6 +156,13 @@ def catalogue():
         ("client-sends-pingReply", '<pingReply uid="1"/>', set()),
         ("enableBLOB-unknown-device", '<enableBLOB device="NOPE">Also</enableBLOB>', set()),
         ("enableBLOB-bad-value", '<enableBLOB device="DEV">Sometimes</enableBLOB>', set()),
+        # enableBLOB may name one property (INDI allows it); the device-wide one among the valid steps follows or precedes it.
+        # (always "Also", the value the valid step uses: another value would legitimately change what this connection is sent)
+        ("enableBLOB-for-an-unknown-property", '<enableBLOB device="DEV" name="NO_SUCH_PROPERTY">Also</enableBLOB>', set()),
+        ("enableBLOB-for-one-property", '<enableBLOB device="DEV" name="BLOB_V">Also</enableBLOB>', set()),
+        ("enableBLOB-for-two-properties", '<enableBLOB device="DEV" name="BLOB_V">Also</enableBLOB><enableBLOB device="DEV" name="TEXT_V">Also</enableBLOB>', set()),
+        ("enableBLOB-without-device", '<enableBLOB>Also</enableBLOB>', set()),
+        ("enableBLOB-with-empty-name", '<enableBLOB device="DEV" name="">Also</enableBLOB>', set()),
         ("getProperties-unknown-device", '<getProperties version="1.7" device="NOPE"/>', set()),
         ("getProperties-unknown-property", '<getProperties version="1.7" device="DEV" name="NOPE_V"/>', set()),
         ("getProperties-no-version", '<getProperties device="DEV"/>', set()),
@@ -331,7 +340,15 @@ async def session(ctx, case, fault, transport, position, frag):
                 before = snapshot(drivers, specs)
                 tap.clear()
                 ctx.count("hostile_messages_injected")
+                import time
+                cpu0 = time.thread_time()
                 await conn.send(text, frag=frag)
+                cpu = time.thread_time() - cpu0
+                if cpu > 1.5:
+                    # CPU time of the event-loop thread for one message of a few hundred bytes: the whole server was blocked that long
+                    ctx.violate(f"hostile-message-blocks-the-event-loop:{label.split('>')[0]}",
+                                f"{label}: handling this {len(text)}-character message used {cpu:.1f} s of CPU time in the event-loop thread", case, {"xml": text[:300]})
+                    return
                 if tap.escaped:
                     m, e = tap.escaped[0]
                     ctx.violate(f"exception-escapes-router:{type(e).__name__}:{label.split('>')[0]}",
